@@ -312,7 +312,7 @@ def gen_ulist(rng):
     return {'kind': 'ulist', 'xs': xs, 'op': rng.choice(['+', '|', '-', '&']), 'other': other}
 
 
-KEYS = ['a', 'b', 'c', 'd', 'x1', 'y2', '_id', '_x']
+KEYS = ['a', 'b', 'c', 'd', 'x1', 'y2', '_id', '_x', 'self', 'data', 'other', 'value']      # some are called like parameters of the library's own methods
 VALS = [0, 1, 'v', None, [1, 2], {'$t': [1]}, 2.5, 'w']
 
 
@@ -374,6 +374,8 @@ def gen_map(rng):
             case['arg'] = '_s'; case['map'] = {k: k + '_s' for k in ks}
         else:
             case['map'] = {k: k.upper() for k in ks}
+        if case['how'] in ('kw', 'rename', 'dict_kw') and 'self' in case['map']:
+            case['how'] = 'dict'        # as a keyword, 'self' IS the method's parameter
         # relabel only maps keys that exist; absent olds must be ignored by the library
         case['map'] = {k: v for k, v in case['map'].items()}
     return case
